@@ -1549,7 +1549,7 @@ func areaDsl(c *Ctx) {
 			if r.Chance(1, 16) { // an early error, then many more lookups for the lexer to deliver
 				head := Pick(r, []string{"GSUB1: A -> \n", "GSUB2: A\n", "GPOS1: A -> q\n", "GSUB1: \"Az\" -> B\n", "GSUB9: A\n", "GSUB1: A -> B\n$\n"})
 				unit := Pick(r, []string{"GSUB1: A -> B\n", "GSUB2: A -> \"AB\", B -> C D\n", "GPOS1: [A B] -> x+1 y-2\n", "GSUB4: A B -> C # c\n"})
-				rep := Pick(r, []int{100, 100, 100, 1000, 1000, 5000}) // 20000 takes longer than the worker's 2 s limit here
+				rep := Pick(r, []int{100, 100, 100, 1000, 1000, 2000}) // 5000 can pass the worker's 2 s limit on a busy machine (false alarm "runaway" in a parallel thorough sweep)
 				procs := Pick(r, []int{1, 2, 16})
 				c.Stat("goroutines.text", fmt.Sprintf("early error + %d lookups", rep))
 				c.Case(Direct, "dsl.goroutinesrep", fmt.Sprintf("procs=%d %s rep=%d head=%s unit=%s", procs, d.args(), rep, hx([]byte(head)), hx([]byte(unit))), true)
